@@ -113,6 +113,10 @@ func (w *redirWorld) step(tok string, idx int) (string, string, error) {
 	}
 	if len(tok) >= 3 && tok[1] == 'R' && len(w.ghosts) == 0 {
 		tok = tok[:1] + "A" + tok[2:]
+	} else if len(tok) >= 3 && tok[1] == 'A' && len(w.ghosts) >= 1 {
+		// at most one added (never started) peer at a time: with two of them three live peers
+		// of five voters are a bare quorum and the leader is easily deposed
+		tok = tok[:1] + "R" + tok[2:]
 	}
 	o, err := w.step1(tok, idx)
 	return tok, o, err
